@@ -80,6 +80,17 @@ def check_rerouted(old_t, old_be, new_t, new_be, S, new):
     Returns list of (class, detail)."""
     errs = []
     old_t, new_t = list(old_t), list(new_t)
+    be_in_S = [t for t in old_be if t in S]
+    if be_in_S:
+        # The statement is silent on a declared back edge whose target is in S.
+        # Accepted: (a) the back edge is left alone, or (b) it is rerouted
+        # consistently (target and declaration both renamed to the new block).
+        # Never accepted: a declaration that names something that is no longer
+        # a successor.
+        ren_t = [new if t in be_in_S else t for t in old_t]
+        ren_be = tuple(new if t in be_in_S else t for t in old_be)
+        if tuple(new_be) == ren_be and all(t in new_t for t in ren_be):
+            old_t, old_be = ren_t, ren_be
     if tuple(new_be) != tuple(old_be):
         errs.append(("backedges-changed", "%s -> %s" % (list(old_be), list(new_be))))
     dropped = [t for t in old_be if t in old_t and t not in new_t]
